@@ -20,7 +20,9 @@ CHECKS = {
             "The real Cells object is driven through random add/remove/move/query histories (boundary, negative, "
             "huge coordinates; sizes 2 and 5) against a shadow set and brute force, and every get_near_cells / "
             "find_nearby_atoms call made inside whole-pipeline runs is compared with an all-atoms search over the "
-            "atoms residues own at that moment; misses and ghosts are classified by registration state and atom role.",
+            "atoms residues own at that moment; misses and ghosts are classified by registration state and atom role. "
+            "A third kind replays the debumper's scan on returned biomolecules: every torsion turned in 10 degree steps "
+            "through Debump.set_dihedral_angle, the moved atoms looked up from every neighbour after each step.",
             "Trusted: brute-force distance search; the classification of an inconsistent atom (unregistered / stale / "
             "removed-still-registered) that keys any finding. The optimisation-phase bookkeeping defects found with "
             "it were repaired in /repo (known_findings.json, fixed list); no C14 finding is open.", "DESIGN.md#c14"),
